@@ -208,11 +208,15 @@ func c10World(t *testing.T, p c10Params, instants *[]int64) rt.Result {
 		// 100 us, so a stop that returns before its connections are closed is seen
 		closeDelay = 100 * time.Microsecond
 	}
+	lisDelay := time.Duration(0)
+	if p.Stop == "CloseTwice" {
+		lisDelay = 300 * time.Microsecond // Serve takes that long to close its listener
+	}
 	closeYields := 0
 	if p.Step < 0 && p.Seed%2 == 1 {
 		closeYields = 40 // timed stops: a close that is slow without letting virtual time pass
 	}
-	out := hz.Run(t, hz.Opts{Seed: p.Seed, HookMode: p.Hook, HookDelays: c10FixedDelays, ExtraListeners: extra, CloseDelay: closeDelay, CloseYields: closeYields}, func(w *hz.World) {
+	out := hz.Run(t, hz.Opts{Seed: p.Seed, HookMode: p.Hook, HookDelays: c10FixedDelays, ExtraListeners: extra, CloseDelay: closeDelay, CloseYields: closeYields, LisCloseDelay: lisDelay}, func(w *hz.World) {
 		x := &c10Ctx{w: w, ps: hz.StdPeer("10.0.1.1")}
 		x.ps.Hold = 90
 		sc.setup(x)
@@ -292,6 +296,28 @@ func c10World(t *testing.T, p c10Params, instants *[]int64) rt.Result {
 		switch p.Stop {
 		case "Close":
 			w.Close()
+		case "CloseTwice":
+			// two overlapping Close calls, the second one issued while Serve is still closing
+			// its listener: each of them returns only when everything is shut down
+			var cwg sync.WaitGroup
+			for k := 0; k < 2; k++ {
+				cwg.Add(1)
+				go func(k int) {
+					defer cwg.Done()
+					time.Sleep(time.Duration(k) * 100 * time.Microsecond)
+					w.Srv.Close()
+					if st := x.mon.State(); st != "Down" {
+						w.Violate("%s Close call %d of two overlapping ones returned while the peer's session is %s (OnClose has not completed)", desc, k+1, st)
+					}
+					for _, c := range held {
+						if c.Pair.Closed(0) == 0 {
+							w.Violate("%s Close call %d of two overlapping ones returned while connection %d (%s) is still open on corebgp's side", desc, k+1, c.ID, c.Dir)
+						}
+					}
+				}(k)
+			}
+			cwg.Wait()
+			w.Close()
 		case "ListenerFail":
 			// the listener fails: Serve must stop every peer as on Close and return that error
 			w.Lis.Fail(errors.New("injected accept failure"))
@@ -344,7 +370,7 @@ func c10World(t *testing.T, p c10Params, instants *[]int64) rt.Result {
 		for _, c := range w.OpenPairsOf(x.ps.Addr) {
 			w.Violate("%s connection %d (%s) still open on corebgp's side when %s returned", desc, c.ID, c.Dir, p.Stop)
 		}
-		if p.Stop == "Close" {
+		if p.Stop == "Close" || p.Stop == "CloseTwice" {
 			if ret, err := w.ServeResult(); !ret {
 				w.Settle()
 				if ret, err = w.ServeResult(); !ret || err != corebgp.ErrServerClosed {
@@ -411,7 +437,7 @@ func TestC10(t *testing.T) {
 	// (i) quiesced stops: every step of every script x stop kind x seeds
 	for _, sc := range c10Scripts {
 		for k := range sc.steps {
-			for _, stop := range []string{"Close", "DeletePeer", "ListenerFail"} {
+			for _, stop := range []string{"Close", "DeletePeer", "ListenerFail", "CloseTwice"} {
 				for s := 0; s < seeds; s++ {
 					p := c10Params{Script: sc.name, Stop: stop, Step: k, Seed: uint64(idx)*6364136223846793005 + c.Seed, Hook: hz.HookVSleep}
 					if s%4 == 3 {
